@@ -320,7 +320,10 @@ pub fn configs(args: &Args) -> Vec<Cfg> {
     let grids: Vec<(usize, usize)> = if thorough { vec![(2, 2), (2, 3), (3, 2), (3, 3), (4, 3), (3, 5), (4, 4), (5, 3)] } else { vec![(2, 2), (2, 3), (3, 2), (3, 3)] };
     let pairs = if thorough { 30 } else { 8 };
     let mut v = vec![];
-    for (nx, ny) in grids {
+    // long axes (search windows, block-wise scans only show beyond 8 points): a few strongly non-uniform ones
+    let long: Vec<(usize, usize)> = if thorough { vec![(10, 2), (2, 11), (13, 3), (3, 18)] } else { vec![(10, 2), (2, 11)] };
+    for (nx, ny) in grids.into_iter().chain(long) {
+        let pairs = if nx.max(ny) >= 9 { pairs.min(6) } else { pairs };
         let fx = axis_family(nx, pairs, args.seed);
         let fy = axis_family(ny, pairs + 3, args.seed ^ 0xabc);
         for k in 0..pairs {
@@ -331,6 +334,9 @@ pub fn configs(args: &Args) -> Vec<Cfg> {
             v.push(Cfg { x: Some(ax), y: Some(ay), nx, ny, trailing, entry, extrapolate: false, transposed_twin: k % 2 == 0 || thorough, timeout_ms });
         }
         // default index axes, and one explicit / one default
+        if nx.max(ny) >= 9 {
+            continue;
+        }
         let fx0 = fx[0].clone();
         let fy2 = fy[2 % fy.len()].clone();
         v.push(Cfg { x: None, y: None, nx, ny, trailing: vec![], entry: Entry::Scalar, extrapolate: false, transposed_twin: true, timeout_ms });
